@@ -21,6 +21,9 @@ type prop struct {
 
 var props = map[string]prop{}
 
+// firsts: per property, the menu of small calls used by the fresh-process call-order check.
+var firsts = map[string]func() []fw.Call{}
+
 func main() {
 	if len(os.Args) < 3 {
 		fmt.Fprintln(os.Stderr, "usage: vcheck <ID> quick|thorough | vcheck <ID> --replay <file>")
@@ -31,6 +34,15 @@ func main() {
 	if !ok {
 		fmt.Fprintln(os.Stderr, "unknown property", id)
 		os.Exit(2)
+	}
+	if os.Args[2] == "--first" {
+		// child of fw.FirstCallOrders: the calls named by index are the first ones this process makes
+		f, ok := firsts[id]
+		if !ok || len(os.Args) < 4 {
+			fmt.Fprintln(os.Stderr, "no call menu for", id)
+			os.Exit(2)
+		}
+		os.Exit(fw.RunFirstChild(f(), os.Args[3]))
 	}
 	if os.Args[2] == "--crashed" {
 		// the exploring process died with a fatal runtime error (stack overflow, out of memory, concurrent
@@ -70,6 +82,14 @@ func main() {
 		os.Setenv("VERIF_ROOT", fw.Root)
 		r := fw.New(id, "quick")
 		r.ReplayMode = true
+		var fc struct {
+			Kind  string   `json:"kind"`
+			Calls []string `json:"calls"`
+		}
+		if f, ok := firsts[id]; ok && json.Unmarshal(c, &fc) == nil && fc.Kind == "first" && len(fc.Calls) > 0 {
+			fw.FirstCallOrders(r, id, f(), fc.Calls)
+			os.Exit(r.Finish())
+		}
 		p.replay(r, c)
 		os.Exit(r.Finish())
 	}
